@@ -525,7 +525,7 @@ class Executor:
                     if len(vals) == 1:
                         return vals[0]
                     raise Unsupported(f'class attribute {attr} on class-set {obj}')
-            if obj.cls_set is None and obj.label == 'self' and (getattr(obj, 'self_class', None) or getattr(self, 'self_class', None)) is not None \
+            if obj.cls_set is None and (getattr(obj, 'self_class', None) is not None or (obj.label == 'self' and getattr(self, 'self_class', None) is not None)) \
                     and attr not in obj.fields:
                 # the receiver of the method under contract was left untyped by the contract: members the contract does not describe (typically a helper
                 # method extracted from the verified one, a class-level constant) are resolved on the class that defines the verified method
